@@ -29,7 +29,11 @@ def build_replay_crate(repo, scratch):
     if os.path.exists(dst):
         shutil.rmtree(dst)
     shutil.copytree(src, dst, ignore=lambda d, n: [x for x in n if x == 'target'])
-    cargo = open(os.path.join(dst, 'Cargo.toml')).read().replace('@REPO@', repo)
+    base = os.path.join(scratch, 'baseline')
+    if os.path.exists(base):
+        shutil.rmtree(base)
+    shutil.copytree(os.path.join(VERIF, 'baseline'), base)
+    cargo = open(os.path.join(dst, 'Cargo.toml')).read().replace('@REPO@', repo).replace('@BASE@', base)
     open(os.path.join(dst, 'Cargo.toml'), 'w').write(cargo)
     env = dict(os.environ, CARGO_NET_OFFLINE='true', CARGO_TARGET_DIR=os.path.join(scratch, 'replay-target'))
     p = subprocess.run(['cargo', 'build', '--offline', '--quiet', '--release'], cwd=dst, env=env, stdout=subprocess.PIPE, stderr=subprocess.STDOUT, text=True)
@@ -82,6 +86,27 @@ def witness_search(pid, names, repo, scratch, say):
     return None
 
 
+DIFF_SCENARIOS = 200000
+
+
+def differential(repo, scratch, say, pid='-'):
+    """native differential execution of the tree under check against the pinned baseline (/verif/baseline) over pseudo-random,
+    boundary-biased API scenarios (replay/src/trace_body.rs).  Returns {'same': n} / {'seed':.., 'pinned':.., 'current':..} / None."""
+    exe = build_replay_crate(repo, scratch)
+    if not exe:
+        return None
+    try:
+        p = subprocess.run([exe, 'diff', '0', str(DIFF_SCENARIOS)], stdout=subprocess.PIPE, stderr=subprocess.PIPE, text=True, timeout=1800)
+    except subprocess.TimeoutExpired:
+        return None
+    lines = p.stdout.strip().split('\n')
+    if lines and lines[0].startswith('DIFFERENT'):
+        return {'seed': int(lines[0].split('seed=')[1]), 'pinned': lines[1][9:] if len(lines) > 1 else '', 'current': lines[2][9:] if len(lines) > 2 else ''}
+    if lines and lines[0].startswith('SAME'):
+        return {'same': DIFF_SCENARIOS}
+    return None
+
+
 def make_replay(pid, mine, kani_fail, meta, repo, scratch, say, tier, standin_hit=None, kani_cex=None):
     d = _replay_dir()
     n = 0
@@ -105,12 +130,24 @@ def make_replay(pid, mine, kani_fail, meta, repo, scratch, say, tier, standin_hi
         say(pid, 'witness search did not run: %s' % e)
     if witness is None and kani_cex:
         witness = kani_cex[0]      # the verifier's own counterexample (Kani concrete playback)
+    differs = None
+    if witness is None and not kani_fail:
+        # no concrete failing input: is this a changed BEHAVIOUR or only a failed PROOF?
+        try:
+            differs = differential(repo, scratch, say, pid)
+        except Exception as e:  # noqa
+            say(pid, 'differential execution did not run: %s' % e)
     rec = {'property': pid, 'created': time.strftime('%Y-%m-%dT%H:%M:%S'), 'failed_obligations': obligations,
-           'witness': witness, 'found_input': witness is not None}
+           'witness': witness, 'found_input': witness is not None, 'differential_against_pinned_tree': differs}
     json.dump(rec, open(path, 'w'), indent=1)
+    if differs and 'seed' in differs:
+        say(pid, 'behaviour differs from the pinned tree (differential scenario %d): pinned %s | current %s' % (differs['seed'], differs['pinned'][:160], differs['current'][:160]))
+    if differs and 'same' in differs:
+        say(pid, 'behaviour is indistinguishable from the pinned tree on %d API scenarios' % differs['same'])
+        return {'path': path, 'found_input': False, 'same_behaviour': True}
     if witness:
         say(pid, 'concrete failing input (%s): %s' % (witness.get('search'), json.dumps({k: v for k, v in witness.items() if k != 'test'})[:300]))
-    return {'path': path, 'found_input': witness is not None}
+    return {'path': path, 'found_input': witness is not None, 'different': bool(differs and 'seed' in differs)}
 
 
 def replay(pid, path, repo, scratch, say):
